@@ -89,9 +89,13 @@ def result():
 # ---------------------------------------------------------------- runner side
 def _executable_lines(path):
     """all line numbers that carry code in a source file"""
+    import warnings
+
     try:
         src = open(path).read()
-        top = compile(src, path, "exec")
+        with warnings.catch_warnings():
+            warnings.simplefilter("ignore")
+            top = compile(src, path, "exec")
     except Exception:
         return set()
     lines, stack = set(), [top]
@@ -134,8 +138,12 @@ def _defs(src):
             else:
                 walk(ch, prefix)
 
+    import warnings
+
     try:
-        walk(ast.parse(src), "")
+        with warnings.catch_warnings():
+            warnings.simplefilter("ignore")
+            walk(ast.parse(src), "")
     except SyntaxError:
         pass
     return out
